@@ -497,6 +497,7 @@ def instances(tier, seed):
         for n in ((0, 1, 2, 3) if ext else (1, 2, 3)):
             for addr in (False, True):
                 yield 'h_vset', dict(ext=ext, n=n, addr=addr)
+    yield from container_instances(tier, seed)
     roots = [r for r in PARSERS]
     seeds = (0, 1) if tier == 'quick' else (0, 1, 2, 3, 4, 5)
     done = set()
@@ -512,6 +513,17 @@ def instances(tier, seed):
                     done.add(key)
                     force = {t: ci}
                     yield 'h_type', dict(root=root, force=force, seed=sd + seed * 100, fsel=(sd * 3 + ci) % 6)
+
+
+from harness.C16c import (h_mc_state_extra, h_mc_block_extra, h_account_block, h_block_extra, h_shard_state, h_block,   # noqa
+                          container_instances)
+
+
+PARSERS.update({
+    'ValidatorInfo': lambda s: BL.ValidatorInfo.deserialize(s), 'KeyMaxLt': lambda s: BL.KeyMaxLt.deserialize(s),
+    'KeyExtBlkRef': lambda s: BL.KeyExtBlkRef.deserialize(s), 'Counters': lambda s: BL.Counters.deserialize(s),
+    'CreatorStats': lambda s: BL.CreatorStats.deserialize(s),
+})
 
 
 def reachable(root):
@@ -552,9 +564,12 @@ BOUNDS = {
     'types': ', '.join(PARSERS) + ', BlockInfo (16 combinations of its conditional fields), BlkPrevInfo, BlkMasterInfo, ValidatorSet (both constructors, 0..3 validators)',
     'alternatives': 'every constructor of every type reachable from each root is forced once per seed; optional fields present/absent by seed (2 seeds quick, 6 thorough)',
     'values': 'all integer, bit-string and hash fields over their full range; amounts within a seeded length class (0..3, 7 bytes); one symbolic Bool per instance',
+    'containers': 'McStateExtra (flags 0/1, 0..2 previous key blocks, both BlockCreateStats constructors with 0..2 entries, 0..2 workchains with BinTree shapes, 1..3 config entries), '
+                  'McBlockExtra (key block or not, 0..2 shard-fee entries, 0/2 signatures, recover/mint messages), AccountBlock (1..3 transactions), BlockExtra (0..2 entries per dictionary, with/without custom), '
+                  'ShardState (split or not, 0..2 accounts, master_ref, custom), Block; dictionary keys concrete, all leaf values symbolic',
     'remainder': 'a 5-bit symbolic tail and one surplus reference are appended: the parser must leave exactly those',
 }
-OUTSIDE = ['McStateExtra/BlockExtra/AccountBlock and the HashmapAug dictionaries inside them', 'the bundled main-net block beyond its header and global id',
+OUTSIDE = ['OutMsgQueueInfo, LibDescr, ShardFees entries beyond their cell, ConfigParam values (kept as cells by the library)', 'the bundled main-net block beyond its header and global id',
            'messages other than a small external-in one inside transactions (C15 decides the message parser)']
 STUBS = ['hashlib.sha256: injective uninterpreted function']
 ASSUMPTIONS = ['specs/tlbschema.py transcribes block.tlb (constructor names and tags linted against the repository copy)']
